@@ -267,7 +267,7 @@ fn main() {
         if !okmac { nbad += 1; }
         w.event(json!({"ev": "c_request", "pre": json_bytes(&pre), "now": now_c, "fudge": fudge, "wire": json_bytes(&wire),
                        "digest": json_bytes(&digest), "full": json_bytes(&full), "mac_ok": okmac}));
-        tamper(&mut rng, &mut fl, true, false, id);
+        tamper(&mut rng, &mut fl, true, false, &full);
         w.event(fl.net_event());
 
         //--- server
@@ -347,6 +347,7 @@ fn main() {
             let pre = bld.as_slice().to_vec();
             let sfudge = if rng.chance(1, 4) { fudge } else { 300 };
             let mut fl;
+            let mut cur_full: Vec<u8> = vec![];
             if rfc_server {
                 let unsigned = mode_seq && !first && i + 1 < nans && rng.chance(1, 2);
                 if unsigned {
@@ -370,6 +371,7 @@ fn main() {
                     w.event(json!({"ev": "rfc_answer", "pre": json_bytes(&pre), "now": now_s, "fudge": sfudge, "wire": json_bytes(&wire),
                                    "digest": json_bytes(&digest), "full": json_bytes(&full)}));
                     prior = rr.mac.clone();
+                    cur_full = full.clone();
                     pending.clear();
                     first = false;
                     fl = Flight::from_signed(&wire, pre.len()).unwrap();
@@ -394,10 +396,11 @@ fn main() {
                                "digest": json_bytes(&digest), "full": json_bytes(&full), "mac_ok": ok}));
                 prior = rr.mac.clone();
                 prior_full = full.clone();
+                cur_full = full.clone();
                 first = false;
             }
             if !tampered_once && fl.rep == 1 {
-                tampered_once = tamper(&mut rng, &mut fl, false, mode_seq, vid);
+                tampered_once = tamper(&mut rng, &mut fl, false, mode_seq, &cur_full);
                 if tampered_once && fl.rep == 0 {
                     // an unsigned message was slipped in ahead
                     let mut ins = Flight::unsigned(&msg_octets(vid, 0x80, 0, 3), 1);
@@ -420,13 +423,13 @@ fn main() {
 
 /// Applies at most one adversary action; rep = 0 on return signals "insert an
 /// unsigned message ahead of this one".
-fn tamper(rng: &mut Rng, fl: &mut Flight, request: bool, seq: bool, _id: u16) -> bool {
+fn tamper(rng: &mut Rng, fl: &mut Flight, request: bool, seq: bool, full: &[u8]) -> bool {
     if !rng.chance(2, 5) || fl.tsig_mut().is_none() {
         return false;
     }
     fl.tampered = true;
     let nb = fl.hb.len();
-    let kind = rng.below(17);
+    let kind = rng.below(18);
     // actions on header / body / record list
     match kind {
         0 => { let k = 1 + rng.below(4) as usize; fl.hb[nb - k] ^= 1 << rng.below(8); return true; }
@@ -452,6 +455,15 @@ fn tamper(rng: &mut Rng, fl: &mut Flight, request: bool, seq: bool, _id: u16) ->
         10 => { t.err = *rng.pick(&[16u16, 17, 18, 1, 22, 5]); }
         11 => { let n = rng.below(9) as usize; t.other = rng.bytes(n); }
         12 => { if request { t.fudge ^= 1; } else { t.err = *rng.pick(&[16u16, 17, 18]); if rng.chance(1, 3) { t.other = u48(77).to_vec(); } } }
+        17 => {
+            // 1..16 octets appended to the (full-length or truncated) MAC, never the genuine continuation
+            for _ in 0..(1 + rng.below(16)) {
+                let p = t.mac.len();
+                let mut b = rng.next() as u8;
+                if full.get(p) == Some(&b) { b ^= 0xff; }
+                t.mac.push(b);
+            }
+        }
         _ => { t.fudge = t.fudge.wrapping_add(1); }
     }
     true
